@@ -2,7 +2,8 @@
    and the property predicate computed from the specification side (independent
    VT parser + interpreter vs the short meaning of the command). *)
 From Coq Require Import List NArith ZArith Bool.
-From SNT Require Export Base.Report Base.Outcome Encoder.Decimal Encoder.Utf8 Encoder.Encode Encoder.VT Encoder.Denote Encoder.EncodeStream.
+From SNT Require Export Base.Report Base.Outcome Encoder.Decimal Encoder.Utf8 Encoder.Encode Encoder.VT Encoder.Denote Encoder.EncodeStream Encoder.Term.
+From SNT Require Corr.C05bCorr.
 Import ListNotations.
 Local Open Scope N_scope.
 
@@ -21,7 +22,9 @@ Inductive c05_case :=
 | Case (cp : caps) (c : cmd) (oracle : list (rgba * N)) (impl : option (list N))
   (* several commands through ONE encoder object into one output *)
     (* `pre`: bytes already in the output (a complete prefix) before the stream is encoded *)
-| Stream (cp : caps) (pre : list N) (cs : list cmd) (oracle : list (rgba * N)) (impl : option (list N)).
+| Stream (cp : caps) (pre : list N) (cs : list cmd) (oracle : list (rgba * N)) (impl : option (list N))
+  (* a renderer session: C05 composed with C01 (Corr/C05bCorr.v) *)
+| Session (x : C05bCorr.session).
 
 Definition oracle_ok (d : depth) (l : list (rgba * N)) : bool :=
   match d with
@@ -49,8 +52,9 @@ Definition c05_check (k : c05_case) : bool * bool :=
         end )
   | Stream cp pre cs oracle impl =>
       let pal := lookup oracle in
-      ( match encode_stream pal pal cp cs, impl with
-        | Ok bs, Some ib => nlist_eqb bs ib
+      ( (* one encoder object, fresh scratch buffer *)
+        match encode_stream_st pal pal cp enc_new cs, impl with
+        | Ok (bs, _), Some ib => nlist_eqb bs ib
         | Panic _, None => true
         | _, _ => false
         end
@@ -58,10 +62,13 @@ Definition c05_check (k : c05_case) : bool * bool :=
         match impl with
         | None => false
         | Some ib =>
+            (* after the complete prefix, the bytes take the terminal -- from the clean state and
+               from two dirty states -- exactly where the commands' meanings take it *)
             vt_complete pre
-            && ops_eqb (vt_ops (pre ++ ib)) (vt_ops pre ++ flat_map (denote pal pal cp) cs)
+            && same_final_state (vt_ops (pre ++ ib)) (vt_ops pre ++ flat_map (denote pal pal cp) cs)
             && vt_complete (pre ++ ib)
         end )
+  | Session x => C05bCorr.session_check x
   end.
 
 Definition c05_report := report c05_check.
